@@ -188,7 +188,26 @@ impl FrameSpec {
                 if more {
                     flags.push_str(r#""more":true,"#);
                 }
-                let body = format!(r#""method":"org.example.{name}","parameters":{params}"#);
+                let mut body = format!(r#""method":"org.example.{name}","parameters":{params}"#);
+                // One call in seven carries an additional top-level member the service does not
+                // know (it must be ignored): its name is generated from ASCII and multi-byte
+                // characters and every other character is written as a \uXXXX escape.
+                if pad % 7 == 3 {
+                    let name_bytes = soup_content((id as u16).wrapping_mul(31).wrapping_add(pad), 1 + (pad as usize * 5 + id as usize) % 60, false);
+                    let raw = String::from_utf8(name_bytes).unwrap_or_default();
+                    let mut spelled = String::new();
+                    for (k, ch) in raw.chars().enumerate() {
+                        if k % 2 == 0 || ch == '"' || ch == '\\' {
+                            let mut units = [0u16; 2];
+                            for u in ch.encode_utf16(&mut units) {
+                                spelled.push_str(&format!("\\u{:04x}", u));
+                            }
+                        } else {
+                            spelled.push(ch);
+                        }
+                    }
+                    body.push_str(&format!(r#","{spelled}":[{id}]"#));
+                }
                 if flags_first {
                     format!("{{{flags}{body}}}").into_bytes()
                 } else if flags.is_empty() {
